@@ -59,6 +59,8 @@ def task_stateless(task, rec, out):
             r = _compile(stmts, build, mode)
             _note_compile(out, tag, r)
             if not r.get("ok"):
+                if task.get("must_accept"):
+                    out["findings"].append({"key": f"{task['key']}/{tag}:accept", "what": f"program inside the documented domain is not accepted: {(r.get('error') or '')[:160]}", "kind": "not-accepted", "closed": True, "src": r["src"], "build": build})
                 continue
             sess = engine.Session(stmts, r["json"])
             fs = engine.check_stateless(
@@ -153,4 +155,53 @@ def task_fresh(task, rec, out):
     task_equiv(task, rec, out)
 
 
-KINDS = {"fresh": task_fresh, "stateless": task_stateless, "history": task_history, "loop": task_loop, "equiv": task_equiv}
+def task_import(task, rec, out):
+    """C17: generated import graphs written to a scratch directory; the importing program, compiled from
+    several working directories, is compared with the generator's pasted twin (reference interpreter)."""
+    import os
+    import shutil
+    import tempfile
+
+    from .driver import compile_one
+
+    root = tempfile.mkdtemp(prefix="verif-c17-")
+    try:
+        proj = os.path.join(root, "proj")
+        decoy = os.path.join(root, "decoycwd")
+        os.makedirs(proj)
+        os.makedirs(decoy)
+        for rel, stmts in task["files"].items():
+            path = os.path.join(proj, rel)
+            os.makedirs(os.path.dirname(path), exist_ok=True)
+            with open(path, "w") as f:
+                f.write(program_src(stmts))
+        for rel, stmts in (task.get("decoys") or {}).items():
+            path = os.path.join(decoy, rel)
+            os.makedirs(os.path.dirname(path), exist_ok=True)
+            with open(path, "w") as f:
+                f.write(program_src(stmts))
+        main_path = os.path.join(proj, "main.facto")
+        main_src = program_src(task["main"])
+        with open(main_path, "w") as f:
+            f.write(main_src)
+        for build in task["builds"]:
+            for cwd_tag, cwd in (("cwd=proj", proj), ("cwd=root", "/"), ("cwd=decoy", decoy)):
+                tag = f"{build['tag']}/{cwd_tag}"
+                r = compile_one({"key": "x", "src": main_src, "source_name": main_path, "cwd": cwd, "optimize": build.get("optimize", True)})
+                r["src"] = main_src
+                _note_compile(out, tag, r)
+                if not r.get("ok"):
+                    out["findings"].append({"key": f"{task['key']}/{tag}:accept", "what": f"importing program not accepted from {cwd_tag}: {(r.get('error') or '')[:200]}", "kind": "import-accept", "closed": True, "src": main_src})
+                    continue
+                sess = engine.Session(task["stmts"], r["json"])
+                fs = engine.check_stateless(sess, rec, f"{task['key']}/{tag}", task)
+                for f in fs:
+                    f["src"] = main_src
+                    f["files"] = {k: program_src(v) for k, v in task["files"].items()}
+                    f["build"] = build
+                out["findings"] += fs
+    finally:
+        shutil.rmtree(root, ignore_errors=True)
+
+
+KINDS = {"import": task_import, "fresh": task_fresh, "stateless": task_stateless, "history": task_history, "loop": task_loop, "equiv": task_equiv}
